@@ -29,25 +29,31 @@ def Rely (c : Config) (fs fs1 : FS) : Prop :=
 
 theorem Rely.refl (c : Config) (fs : FS) : Rely c fs fs := ⟨fun _ _ h => h, fun _ _ _ => rfl⟩
 
-def EnvOK (c : Config) (es : List (FS → FS)) : Prop := ∀ e ∈ es, ∀ fs, Rely c fs (e fs)
+theorem Rely.trans {c : Config} {a b d : FS} (h1 : Rely c a b) (h2 : Rely c b d) : Rely c a d :=
+  ⟨fun q hq h => h2.1 q hq (h1.1 q hq h), fun q i hq => (h2.2 q i hq).trans (h1.2 q i hq)⟩
 
-theorem EnvOK.tail {c : Config} {es : List (FS → FS)} (h : EnvOK c es) : EnvOK c es.tail :=
-  fun e he => h e (List.mem_of_mem_tail he)
+/-- the interference met along THIS run respects `Rely` (each element of `es` is applied to the state the
+    program has reached, so a constant function "the file system now looks like this" is allowed) -/
+def EnvOK (S : Spec) (c : Config) {α : Type} : Prog α → List (FS → FS) → FS → Prop
+  | .ret _, _, _ => True
+  | .fail, _, _ => True
+  | .act o k, es, fs =>
+      Rely c fs ((es.headD id) fs) ∧
+      EnvOK S c (k (result ((es.headD id) fs) o)) es.tail (applyOp S ((es.headD id) fs) o)
 
-theorem EnvOK.head {c : Config} {es : List (FS → FS)} (h : EnvOK c es) (fs : FS) : Rely c fs ((es.headD id) fs) := by
-  cases es with
-  | nil => exact Rely.refl c fs
-  | cons e r => exact h e (List.mem_cons_self ..) fs
-
-theorem EnvOK.nil (c : Config) : EnvOK c [] := fun _ h => by cases h
+theorem EnvOK.nil (S : Spec) (c : Config) {α : Type} (m : Prog α) (fs : FS) : EnvOK S c m [] fs := by
+  induction m generalizing fs with
+  | ret a => trivial
+  | fail => trivial
+  | act o k ih => exact ⟨Rely.refl c fs, ih _ _⟩
 
 def Stable (c : Config) (A : FS → Prop) : Prop := ∀ fs fs1, Rely c fs fs1 → A fs → A fs1
 
 /-- total correctness under interference: from every state satisfying `A` the program returns (no exception)
     with a result and a state satisfying `Q`, and every step it performed satisfies `E` -/
 def Triple (S : Spec) (pid : Nat) (c : Config) (E : Op → Prop) {α : Type} (A : FS → Prop) (m : Prog α) (Q : α → FS → Prop) : Prop :=
-  ∀ es fs, EnvOK c es → A fs →
-    ∃ a fs' t es', runE S pid m es fs = (some a, fs', t, es') ∧ Q a fs' ∧ EnvOK c es' ∧ ∀ e ∈ t, E e.op
+  ∀ es fs, EnvOK S c m es fs → A fs →
+    ∃ a fs' t es', runE S pid m es fs = (some a, fs', t, es') ∧ Q a fs' ∧ ∀ e ∈ t, E e.op
 
 section logic
 variable {S : Spec} {pid : Nat} {c : Config} {E : Op → Prop}
@@ -70,8 +76,35 @@ theorem runE_bind {α β : Type} (m : Prog α) (f : α → Prog β) (es : List (
     obtain ⟨a, fs', t, es'⟩ := x
     cases a <;> rfl
 
+/-- the interference of a sequential composition splits -/
+theorem EnvOK_bind {α β : Type} (m : Prog α) (f : α → Prog β) (es : List (FS → FS)) (fs : FS)
+    (h : EnvOK S c (m >>= f) es fs) :
+    EnvOK S c m es fs ∧ ∀ a fs' t es', runE S pid m es fs = (some a, fs', t, es') → EnvOK S c (f a) es' fs' := by
+  induction m generalizing es fs with
+  | ret a =>
+    refine ⟨trivial, ?_⟩
+    intro a' fs' t es' hr
+    simp only [runE, Prod.mk.injEq, Option.some.injEq] at hr
+    obtain ⟨h1, h2, _, h4⟩ := hr
+    subst h1; subst h2; subst h4
+    exact h
+  | fail => exact ⟨trivial, fun a fs' t es' hr => by simp [runE] at hr⟩
+  | act o k ih =>
+    have h' : EnvOK S c (.act o (fun r => (k r) >>= f)) es fs := h
+    obtain ⟨h1, h2⟩ := h'
+    obtain ⟨g1, g2⟩ := ih _ _ _ h2
+    refine ⟨⟨h1, g1⟩, ?_⟩
+    intro a fs' t es' hr
+    simp only [runE] at hr
+    generalize hx : runE S pid (k (result ((es.headD id) fs) o)) es.tail (applyOp S ((es.headD id) fs) o) = x at hr
+    obtain ⟨a1, fs1, t1, es1⟩ := x
+    simp only [Prod.mk.injEq] at hr
+    obtain ⟨ha, hfs, _, hes⟩ := hr
+    subst ha; subst hfs; subst hes
+    exact g2 _ _ _ _ hx
+
 theorem triple_ret {α : Type} {A : FS → Prop} {Q : α → FS → Prop} (a : α) (h : ∀ fs, A fs → Q a fs) :
-    Triple S pid c E A (pure a) Q := fun es fs he hA => ⟨a, fs, [], es, rfl, h fs hA, he, fun _ h => by cases h⟩
+    Triple S pid c E A (pure a) Q := fun es fs _ hA => ⟨a, fs, [], es, rfl, h fs hA, fun _ h => by cases h⟩
 
 theorem triple_false {α : Type} {A : FS → Prop} (m : Prog α) (Q : α → FS → Prop) (h : ∀ fs, ¬ A fs) :
     Triple S pid c E A m Q := fun _ fs _ hA => absurd hA (h fs)
@@ -86,9 +119,10 @@ theorem triple_conseq {α : Type} {A A' : FS → Prop} {Q Q' : α → FS → Pro
 theorem triple_bind {α β : Type} {A : FS → Prop} {Q : α → FS → Prop} {R : β → FS → Prop} {m : Prog α} {f : α → Prog β}
     (hm : Triple S pid c E A m Q) (hf : ∀ a, Triple S pid c E (Q a) (f a) R) : Triple S pid c E A (m >>= f) R := by
   intro es fs he h0
-  obtain ⟨a, fs', t, es', h1, h2, h3, h4⟩ := hm es fs he h0
-  obtain ⟨b, fs'', t', es'', g1, g2, g3, g4⟩ := hf a es' fs' h3 h2
-  refine ⟨b, fs'', t ++ t', es'', ?_, g2, g3, ?_⟩
+  obtain ⟨he1, he2⟩ := EnvOK_bind (pid := pid) m f es fs he
+  obtain ⟨a, fs', t, es', h1, h2, h4⟩ := hm es fs he1 h0
+  obtain ⟨b, fs'', t', es'', g1, g2, g4⟩ := hf a es' fs' (he2 a fs' t es' h1) h2
+  refine ⟨b, fs'', t ++ t', es'', ?_, g2, ?_⟩
   · rw [runE_bind, h1]
     simp [g1]
   · intro e he'
@@ -100,9 +134,10 @@ theorem triple_act {α : Type} {A : FS → Prop} {Q : α → FS → Prop} (o : O
     (B : Bool → FS → Prop) (hEo : E o) (hst : Stable c A) (hB : ∀ fs, A fs → B (result fs o) (applyOp S fs o))
     (hk : ∀ r, Triple S pid c E (B r) (k r) Q) : Triple S pid c E A (.act o k) Q := by
   intro es fs he h0
-  have h1 : A ((es.headD id) fs) := hst _ _ (he.head fs) h0
-  obtain ⟨a, fs', t, es', g1, g2, g3, g4⟩ := hk _ es.tail _ he.tail (hB _ h1)
-  refine ⟨a, fs', ⟨pid, o, result ((es.headD id) fs) o⟩ :: t, es', ?_, g2, g3, ?_⟩
+  obtain ⟨he1, he2⟩ := he
+  have h1 : A ((es.headD id) fs) := hst _ _ he1 h0
+  obtain ⟨a, fs', t, es', g1, g2, g4⟩ := hk _ es.tail _ he2 (hB _ h1)
+  refine ⟨a, fs', ⟨pid, o, result ((es.headD id) fs) o⟩ :: t, es', ?_, g2, ?_⟩
   · simp only [runE, g1]
   · intro e he'
     rcases List.mem_cons.1 he' with rfl | h
@@ -454,6 +489,17 @@ theorem triple_cacheFile {L : List Path} (hL : Fin L) (dst : Path) (i : Nat) (co
     exact triple_ret () (fun _ h => h)
 
 
+/-- the artefacts a follow-up build needs in order not to compile anything -/
+def needed (c : Config) : List Path :=
+  if c.openmp = true then [c.k "binary", c.v "output", c.o "binary", c.o "output"] else [c.k "binary"]
+
+omit hE in
+theorem needed_fin (c : Config) : Fin (needed c) := by
+  unfold needed
+  split <;> intro q hq <;> simp only [List.mem_cons, List.mem_nil_iff, or_false] at hq
+  · rcases hq with rfl | rfl | rfl | rfl <;> rfl
+  · subst hq; rfl
+
 /-- one compiler run whose source exists: all outputs exist afterwards -/
 theorem triple_exec {X : List Path} (hX : AllMine c X) (src : Path) (outs : List Path) (hs : src ∈ X) (_ho : AllMine c outs) (hX' : E (.exec src outs)) :
     Triple S pid c E (Pr X) (op (.exec src outs)) (fun ok fs => ok = true ∧ Pr (outs ++ X) fs) := by
@@ -547,7 +593,7 @@ theorem triple_loadCached {L : List Path} (hL : Fin L) (hb : c.k "binary" ∈ L)
 
 theorem triple_serialBuild {L : List Path} (hL : Fin L) (n : Nat) (hinj : ∀ i j, c.toks i = c.toks j → i = j) (hEx : ∀ s o, E (.exec s o))
     (hpo : c.parseOk = true) (hstr : c.fromString = true → c.k "string_source.cpp" ∈ L) :
-    Triple S pid c E (Pr L) (serialBuild c n) (fun r fs => r = true ∧ fs.present (c.k "binary") = true) := by
+    Triple S pid c E (Pr L) (serialBuild c n) (fun r fs => r = true ∧ Pr (c.k "binary" :: L) fs) := by
   unfold serialBuild
   refine triple_bind (triple_test hE hL.allMine (.stat (c.k "binary")) (c.k "binary") rfl (fun _ => rfl) (fun _ => rfl)) (fun found => ?_)
   cases found
@@ -582,14 +628,14 @@ theorem triple_serialBuild {L : List Path} (hL : Fin L) (n : Nat) (hinj : ∀ i 
       cases ok
       · exact triple_false _ _ (fun fs h => by cases h.1)
       · simp only [if_true]
-        exact triple_ret true (fun _ h => ⟨rfl, h.2.head⟩)
+        exact triple_ret true (fun _ h => ⟨rfl, h.2.mono (by intro q hq; simp only [List.mem_cons] at hq ⊢; rcases hq with h | h <;> simp [h])⟩)
   · simp only [if_true]
     have hL1 : Fin (c.k "binary" :: L) := hL.cons (k_final _)
     refine triple_bind (triple_loadCached hE hL1 (List.mem_cons_self ..)) (fun _ => ?_)
-    exact triple_ret true (fun _ h => ⟨rfl, h.head⟩)
+    exact triple_ret true (fun _ h => ⟨rfl, h⟩)
 
 theorem triple_buildProg (hinj : ∀ i j, c.toks i = c.toks j → i = j) (hEx : ∀ s o, E (.exec s o)) (hpo : c.parseOk = true) :
-    Triple S pid c E (Pr []) (buildProg c) (fun r fs => r = true ∧ fs.present (c.k "binary") = true) := by
+    Triple S pid c E (Pr []) (buildProg c) (fun r fs => r = true ∧ Pr (needed c) fs) := by
   have h0 : Fin [] := fun _ h => by cases h
   unfold buildProg
   refine triple_bind (triple_applyDependencyHash hE h0) (fun _ => ?_)
@@ -608,16 +654,24 @@ theorem triple_buildProg (hinj : ∀ i j, c.toks i = c.toks j → i = j) (hEx : 
       · exact h0
     have hstr : c.fromString = true → c.k "string_source.cpp" ∈ (if c.fromString = true then [c.k "string_source.cpp"] else []) := by
       intro h; simp [h]
-    refine triple_bind (Q := fun r fs => r = true ∧ fs.present (c.k "binary") = true) ?_ (fun ok => ?_)
+    refine triple_bind (Q := fun r fs => r = true ∧ Pr (needed c) fs) ?_ (fun ok => ?_)
     · by_cases hom : c.openmp = true
       · simp only [hom, if_true]
         refine triple_bind (triple_compilerVendor hE h1 1 hinj hEx) (fun _ => ?_)
         have h2 := h1.cons (v_final (c := c) "output")
         refine triple_bind (triple_ompCompilerFlag hE h2 5 hinj hEx) (fun _ => ?_)
         have h3 := (h2.cons (o_final (c := c) "output")).cons (o_final (c := c) "binary")
-        exact triple_serialBuild hE h3 8 hinj hEx hpo (fun h => List.mem_cons_of_mem _ (List.mem_cons_of_mem _ (List.mem_cons_of_mem _ (hstr h))))
+        refine triple_conseq (triple_serialBuild hE h3 8 hinj hEx hpo (fun h => List.mem_cons_of_mem _ (List.mem_cons_of_mem _ (List.mem_cons_of_mem _ (hstr h)))))
+          (fun _ h => h) (fun _ fs h => ⟨h.1, h.2.mono ?_⟩)
+        intro q hq
+        simp only [needed, hom, if_true, List.mem_cons, List.mem_nil_iff, or_false] at hq
+        simp only [List.mem_cons]
+        rcases hq with h | h | h | h <;> simp [h]
       · simp only [hom]
-        exact triple_serialBuild hE h1 8 hinj hEx hpo hstr
+        refine triple_conseq (triple_serialBuild hE h1 8 hinj hEx hpo hstr) (fun _ h => h) (fun _ fs h => ⟨h.1, h.2.mono ?_⟩)
+        intro q hq
+        have hq' : q = c.k "binary" := by simpa [needed, hom] using hq
+        simp [hq']
     · cases ok
       · exact triple_false _ _ (fun fs h => by cases h.1)
       · simp only [if_true]
@@ -684,17 +738,6 @@ theorem triple_serialBuild_warm {L : List Path} (hL : Fin L) (n : Nat) (hb : c.k
   simp only [if_true]
   refine triple_bind (triple_conseq (triple_loadCached hE hL hb) (fun _ h => h.2) (fun _ _ h => h)) (fun _ => ?_)
   exact triple_ret true (fun _ h => ⟨rfl, h⟩)
-
-/-- the artefacts a follow-up build needs in order not to compile anything -/
-def needed (c : Config) : List Path :=
-  if c.openmp = true then [c.k "binary", c.v "output", c.o "binary", c.o "output"] else [c.k "binary"]
-
-omit hE in
-theorem needed_fin (c : Config) : Fin (needed c) := by
-  unfold needed
-  split <;> intro q hq <;> simp only [List.mem_cons, List.mem_nil_iff, or_false] at hq
-  · rcases hq with rfl | rfl | rfl | rfl <;> rfl
-  · subst hq; rfl
 
 theorem triple_buildProg_warm :
     Triple S pid c E (Pr (needed c)) (buildProg c) (fun r _ => r = true) := by
